@@ -278,6 +278,7 @@ def t_lookup_header(it):
     triv = lambda: LoopSpec(lambda it_, env, idx, ctx: [("trivial", z3.BoolVal(True))], prop=P, modifies=lambda it_, env, ctx: [])
     for k in (1, 2, 3):
         it.loop_specs[(key, k)] = triv()
+    it.loop_specs[(M + ":*", "*")] = triv()  # the same scan loop extracted into a helper keeps its (trivial) spec
     # iteration over the container itself: cast(Iterable, headers) -> a sequence of pairs, or raises
     it.ext_models["typing.cast"] = lambda it_, a, k, n: iter_model(it_, a[1])
 
